@@ -3,6 +3,11 @@
    and report the cases where they differ. *)
 let () =
   let mode = Sys.argv.(1) and file = Sys.argv.(2) in
+  if mode = "sym" then begin
+    let (n, bad) = Run_sym.run_file file in
+    Printf.printf "SUMMARY cases=%d mismatches=%d\n" n bad;
+    exit (if bad = 0 then 0 else 3)
+  end;
   if mode = "tm" then begin
     let (n, bad) = Run_tm.run_file file in
     Printf.printf "SUMMARY cases=%d mismatches=%d\n" n bad;
@@ -22,6 +27,7 @@ let () =
     | "c19" -> Run_c19.eval_line
     | "queue" -> Run_queue.eval_line
     | "noise" -> Run_noise.eval_line
+    | "pairing" -> Run_pairing.eval_line
     | _ -> failwith ("unknown mode " ^ mode) in
   let ic = open_in file in
   let n = ref 0 and bad = ref 0 in
